@@ -109,45 +109,167 @@ def pred_at(eng, fn_elem_to_val, xs, i):
         eng.pure -= 1
 
 
+JCANON = z3.Int("J!canon")
+
+
+def _flatten(v, path=()):
+    """Scalar leaves of a value: list of (path, kind, z3expr, extra) or None if not nameable."""
+    if isinstance(v, SConst):
+        return [(path, "const", v.z, v.dom)]
+    if isinstance(v, SInt):
+        return [(path, "int", v.z, None)]
+    if isinstance(v, SBool):
+        return [(path, "bool", v.z, None)]
+    if isinstance(v, SVal):
+        return [(path, "val", v.z, None)]
+    if isinstance(v, dict):
+        out = []
+        for k in v:
+            sub = _flatten(v[k], path + (("d", k),))
+            if sub is None:
+                return None
+            out.extend(sub)
+        return out
+    if isinstance(v, tuple):
+        out = []
+        for k, x in enumerate(v):
+            sub = _flatten(x, path + (("t", k),))
+            if sub is None:
+                return None
+            out.extend(sub)
+        return out
+    if isinstance(v, Sym):
+        return None
+    try:
+        hash(v)
+    except TypeError:
+        return None
+    return [(path, "py", v, None)]
+
+
+def _rebuild(template, leaves, j):
+    """Rebuild a value shaped like `template` with leaf functions applied to index j."""
+    it = iter(leaves)
+
+    def rec(v):
+        if isinstance(v, dict):
+            return {k: rec(v[k]) for k in v}
+        if isinstance(v, tuple):
+            return tuple(rec(x) for x in v)
+        kind, f, extra = next(it)
+        if kind == "const":
+            return SConst(f(j), extra)
+        if kind == "int":
+            return SInt(f(j))
+        if kind == "bool":
+            return SBool(f(j))
+        if kind == "val":
+            return SVal(f(j))
+        return f
+    return rec(template)
+
+
+def named(eng, xs, hint="lst"):
+    """Give the elements of a symbolic list fresh function symbols (struct of arrays) with
+    definitional axioms  forall J. f(J) = <element expression at J>.  Semantically the identity;
+    identical element expressions share their function symbols within a path, so that the code side
+    and the spec side of an obligation talk about the same terms (cheap quantifier instantiation)."""
+    try:
+        eng.pure += 1
+        try:
+            elem = xs.get(JCANON)
+        finally:
+            eng.pure -= 1
+    except Unsupported:
+        return xs
+    leaves = _flatten(elem)
+    if leaves is None:
+        return xs
+    key = (z3.simplify(xs.length).sexpr(),) + tuple(
+        (p, k, (e.sexpr() if k != "py" else repr(e))) for p, k, e, _ in leaves)
+    memo = eng.path.notes.setdefault("named", {})
+    if key in memo:
+        return memo[key]
+    fl = []
+    trivial = True
+    for p, kind, e, extra in leaves:
+        if kind == "py":
+            fl.append((kind, e, extra))
+            continue
+        # already a plain application f(J): keep the symbol
+        if z3.is_app(e) and e.num_args() == 1 and e.arg(0).eq(JCANON) and e.decl().kind() == z3.Z3_OP_UNINTERPRETED:
+            d = e.decl()
+            fl.append((kind, (lambda j, d=d: d(zidx(j))), extra))
+            continue
+        trivial = False
+        f = z3.Function(S.fresh_name(hint), z3.IntSort(), e.sort())
+        eng.assume(z3.ForAll([JCANON], f(JCANON) == e, patterns=[f(JCANON)]))
+        fl.append((kind, (lambda j, f=f: f(zidx(j))), extra))
+    out = SList(xs.length, lambda j: _rebuild(elem, fl, zidx(j)), hint, xs.tainted)
+    memo[key] = out
+    eng.path.notes.setdefault("keepalive", []).append(out)
+    return out
+
+
 def slist_filter(eng, xs, pred_fn, name="flt"):
-    """[x for x in xs if pred_fn(x)]  — order-preserving selection (Appendix A `filter`)."""
+    """[x for x in xs if pred_fn(x)]  — order-preserving selection (Appendix A `filter`).
+
+    The emptiness facts are asserted eagerly; the index-function axioms (iota / kappa) only when an
+    element of the result is accessed; the cardinality lemmas only when a unit asks for them."""
     n = xs.length
     r = z3.Int(S.fresh_name(name + "_len"))
-    iota = z3.Function(S.fresh_name(name + "_iota"), z3.IntSort(), z3.IntSort())
-    kappa = z3.Function(S.fresh_name(name + "_kappa"), z3.IntSort(), z3.IntSort())
-    j = z3.Int(S.fresh_name("j"))
-    j2 = z3.Int(S.fresh_name("j2"))
     i = z3.Int(S.fresh_name("i"))
 
     def P(ix):
         return pred_at(eng, pred_fn, xs, ix)
 
     eng.assume(z3.And(r >= 0, r <= n))
-    eng.assume(z3.ForAll([j], z3.Implies(z3.And(0 <= j, j < r),
-                                         z3.And(0 <= iota(j), iota(j) < n, P(iota(j)),
-                                                kappa(iota(j)) == j)),
-                         patterns=[iota(j)]))
-    eng.assume(z3.ForAll([j, j2], z3.Implies(z3.And(0 <= j, j < j2, j2 < r), iota(j) < iota(j2)),
-                         patterns=[z3.MultiPattern(iota(j), iota(j2))]))
-    eng.assume(z3.ForAll([i], z3.Implies(z3.And(0 <= i, i < n, P(i)),
-                                         z3.And(0 <= kappa(i), kappa(i) < r, iota(kappa(i)) == i)),
-                         patterns=[kappa(i)]))
-    # kappa is monotone on satisfying indices (consequence of iota strictly increasing)
-    i2 = z3.Int(S.fresh_name("i2"))
-    eng.assume(z3.ForAll([i, i2], z3.Implies(z3.And(0 <= i, i < i2, i2 < n, P(i), P(i2)),
-                                             kappa(i) < kappa(i2)),
-                         patterns=[z3.MultiPattern(kappa(i), kappa(i2))]))
-    # emptiness witnesses (derived facts, instantiated eagerly)
     w = z3.Int(S.fresh_name("w"))
-    eng.assume(z3.Implies(r > 0, z3.And(0 <= w, w < n, P(w), w == iota(0))))
+    eng.assume(z3.Implies(r > 0, z3.And(0 <= w, w < n, P(w))))
+    eng.assume(z3.ForAll([i], z3.Implies(z3.And(0 <= i, i < n, P(i)), r > 0)))
+    # all elements satisfy P  <=>  r = n   (witness form)
+    u = z3.Int(S.fresh_name("u"))
+    eng.assume(z3.Implies(r < n, z3.And(0 <= u, u < n, z3.Not(P(u)))))
+    eng.assume(z3.Implies(r == n, z3.ForAll([i], z3.Implies(z3.And(0 <= i, i < n), P(i)))))
     info = FilterInfo(n, P, r)
-    finfos = eng.path.notes.setdefault("filters", [])
-    for other in finfos:
-        card_lemmas(eng, info, other)
-    finfos.append(info)
-    out = SList(r, lambda jx: xs.get(iota(zidx(jx))), name, tainted=xs.tainted)
+    state = {"mat": None}
+
+    def materialize():
+        if state["mat"] is not None:
+            return state["mat"]
+        iota = z3.Function(S.fresh_name(name + "_iota"), z3.IntSort(), z3.IntSort())
+        kappa = z3.Function(S.fresh_name(name + "_kappa"), z3.IntSort(), z3.IntSort())
+        j = z3.Int(S.fresh_name("j"))
+        j2 = z3.Int(S.fresh_name("j2"))
+        i2 = z3.Int(S.fresh_name("i2"))
+        eng.assume(z3.ForAll([j], z3.Implies(z3.And(0 <= j, j < r),
+                                             z3.And(0 <= iota(j), iota(j) < n, P(iota(j)),
+                                                    kappa(iota(j)) == j)),
+                             patterns=[iota(j)]))
+        eng.assume(z3.ForAll([j, j2], z3.Implies(z3.And(0 <= j, j < j2, j2 < r), iota(j) < iota(j2)),
+                             patterns=[z3.MultiPattern(iota(j), iota(j2))]))
+        eng.assume(z3.ForAll([i], z3.Implies(z3.And(0 <= i, i < n, P(i)),
+                                             z3.And(0 <= kappa(i), kappa(i) < r, iota(kappa(i)) == i)),
+                             patterns=[kappa(i)]))
+        eng.assume(z3.ForAll([i, i2], z3.Implies(z3.And(0 <= i, i < i2, i2 < n, P(i), P(i2)),
+                                                 kappa(i) < kappa(i2)),
+                             patterns=[z3.MultiPattern(kappa(i), kappa(i2))]))
+        eng.assume(z3.Implies(r > 0, w == iota(0)))
+        state["mat"] = (iota, kappa)
+        return state["mat"]
+
+    def get(jx):
+        iota, _ = materialize()
+        return xs.get(iota(zidx(jx)))
+
+    if eng.path.notes.get("card_lemmas"):
+        finfos = eng.path.notes.setdefault("filters", [])
+        for other in finfos:
+            card_lemmas(eng, info, other)
+        finfos.append(info)
+    out = SList(r, get, name, tainted=xs.tainted)
     out_meta = eng.path.notes.setdefault("filter_meta", {})
-    out_meta[id(out)] = (info, iota, kappa, xs)
+    out_meta[id(out)] = (info, materialize, xs)
     eng.path.notes.setdefault("keepalive", []).append(out)
     return out
 
@@ -186,7 +308,7 @@ def slist_map(eng, xs, fn, name="map"):
             return fn(xs.get(zidx(jx)))
         finally:
             eng.pure -= 1
-    return SList(xs.length, get, name, tainted=xs.tainted)
+    return named(eng, SList(xs.length, get, name, tainted=xs.tainted), name)
 
 
 def slist_comprehension(eng, n, gen, first, env):
@@ -270,7 +392,10 @@ def slist_delete(eng, xs, k):
     pos = z3.simplify(z3.If(i >= 0, i, n + i))
     old = xs.get
     # elements are a function of the index only, so an if-then-else *index* is exact
-    xs.get = lambda j, old=old, pos=pos: old(z3.If(zidx(j) < pos, zidx(j), zidx(j) + 1))
+    shifted = SList(n - 1, lambda j, old=old, pos=pos: old(z3.If(zidx(j) < pos, zidx(j), zidx(j) + 1)),
+                    xs.name, xs.tainted)
+    nm = named(eng, shifted, "del")
+    xs.get = nm.get
     xs.length = n - 1
 
 
